@@ -224,6 +224,51 @@ class Sim:
         z = [v for v in z if math.isfinite(v)]
         return 1e-9 * (1.0 + max(z + [self.w.model.zscale]))
 
+    def watcher(self):
+        """(size, hook): the hook records the largest |z| the lens reaches
+        after any evaluation of the driver."""
+        size = {'max': 0.0}
+
+        def watch():
+            for lens in [self.lens] + ([self.w2.lens] if self.w2 else []):
+                z = np.asarray(lens.surface_group.positions[1:], dtype=float)
+                z = np.abs(z[np.isfinite(z)])
+                if z.size:
+                    size['max'] = max(size['max'], float(z.max()))
+        return size, watch
+
+    def knife_edge(self, rx, rf):
+        """The returned point sits on the edge of a region where the merit
+        function is undefined (a ray just fails): is there, within 1e-12 of
+        x, a point whose merit is the returned objective?  Then whether the
+        final lens is on the finite or on the undefined side is decided by
+        the last bit of a vertex position, not by the optimiser."""
+        vs = self.problem.variables
+        found = False
+        try:
+            with quiet(), warnings.catch_warnings():
+                warnings.simplefilter('ignore')
+                for j in range(len(vs)):
+                    for sgn in (1.0, -1.0):
+                        x = list(rx)
+                        x[j] += sgn * 1e-12 * (1.0 + abs(x[j]))
+                        for var, v in zip(vs, x):
+                            var.update(v)
+                        self.problem.update_optics()
+                        m_ = self.merit()
+                        if m_ is not None and math.isfinite(m_) and \
+                                abs(m_ - rf) <= 1e-5 * abs(rf) + 1e-9:
+                            found = True
+                            break
+                    if found:
+                        break
+                for var, v in zip(vs, rx):
+                    var.update(v)
+                self.problem.update_optics()
+        except Exception:
+            return False
+        return found
+
     def displaced(self):
         """A solve (or an unbounded driver) has put the lens several
         thousand times its own length away from surface 1.  Positions are
@@ -316,13 +361,7 @@ class Sim:
         else:
             drv = simopt.RealDriver(st['seed'], self.stats['probes'])
         self.shape.append((front, st['driver']))
-        size = {'max': 0.0}
-
-        def watch():
-            z = self.lens.surface_group.positions[1:]
-            z = np.abs(z[np.isfinite(z)])
-            if z.size:
-                size['max'] = max(size['max'], float(z.max()))
+        size, watch = self.watcher()
         drv.after_eval = watch
         kwargs = {'maxiter': st.get('maxiter', 5), 'disp': False}
         if front == 'generic_m':
@@ -348,9 +387,10 @@ class Sim:
         # values and back; positions are absolute, so the other gaps of the
         # lens were absorbed (1e160 + 27 == 1e160) and nothing can restore
         # them: earlier snapshots are void
-        if size['max'] > 1e9 * (1 + self.w.model.zscale) or any(
-                np.abs(x).max() > 1e7 for x, _ in getattr(drv, 'trace', [])
-                if np.size(x)):
+        excursion = size['max'] > 1e9 * (1 + self.w.model.zscale) or any(
+            np.abs(x).max() > 1e7 for x, _ in getattr(drv, 'trace', [])
+            if np.size(x))
+        if excursion:
             self.probe('driver_excursion_to_astronomical_values')
             for sl in self.optimizers:
                 if sl is not None:
@@ -367,7 +407,10 @@ class Sim:
         for j, (v, x) in enumerate(zip(vals, rx)):
             tol = 1e-11 * max(1.0, abs(x))
             if self.vspecs[j]['type'] == 'thickness':
-                tol += ztol
+                # positions are absolute: a gap written while the lens was
+                # at the largest size the driver took it to carries the
+                # round-off of that size
+                tol += ztol + 1e-14 * size['max']
             if not (abs(v - x) <= tol):
                 last = getattr(drv, 'trace', None)
                 hint = ''
@@ -389,14 +432,17 @@ class Sim:
             # function is not a function of the variables there
             self.probe('degenerate_zero_gap_at_solution')
             consistent = False
-        if consistent and self.displaced():
+        if consistent and (self.displaced() or excursion):
+            # ... or the driver took it there and back: the gaps that are
+            # not variables have absorbed the round-off of that size and the
+            # lens is no longer the one the objective was computed on
             self.probe('objective_not_compared_on_displaced_lens')
-            self.check_bounds_and_pickups(key, ztol, inside)
+            self.check_bounds_and_pickups(key, ztol, inside, excursion)
             return
         if not consistent:
             self.stats['faults']['driver_inconsistent_pair'] = \
                 self.stats['faults'].get('driver_inconsistent_pair', 0) + 1
-            self.check_bounds_and_pickups(key, ztol, inside)
+            self.check_bounds_and_pickups(key, ztol, inside, excursion)
             return
         # (b) re-evaluating the merit function reproduces the objective
         ss = self.merit()
@@ -409,6 +455,11 @@ class Sim:
             self.probe('returned_sentinel')
         else:
             okf = abs(ss - rf) <= 1e-6 * abs(rf) + 1e-10 * max(1.0, f0)
+        if not okf and rf < 1e10 and not math.isfinite(ss) and \
+                self.knife_edge(rx, rf):
+            self.probe('solution_on_the_edge_of_ray_failure')
+            self.check_bounds_and_pickups(key, ztol, inside, excursion)
+            return
         if not okf:
             raise Violation('state', f'C14/{key}/state/objective',
                             f'optimize() returned fun={rf!r} at x={rx}, '
@@ -443,11 +494,12 @@ class Sim:
         if not inside:
             self.stats['faults']['x0_outside_bounds'] = \
                 self.stats['faults'].get('x0_outside_bounds', 0) + 1
-        self.check_bounds_and_pickups(key, ztol, inside)
+        self.check_bounds_and_pickups(key, ztol, inside, excursion)
         if rx != x0:
             self.probe('returned_point_differs_from_start')
 
-    def check_bounds_and_pickups(self, key, ztol, inside=True):
+    def check_bounds_and_pickups(self, key, ztol, inside=True,
+                                 excursion=False):
         # (d) bounded variables inside their bounds, in physical units (for
         # an admissible start: some drivers hand back an inadmissible start
         # unchanged)
@@ -466,6 +518,12 @@ class Sim:
                                 f'variable {spec} ended at physical value '
                                 f'{p!r}, bounds [{lo}, {hi}]')
         # (e) pickups and solves satisfied
+        if excursion and self.w.model.solves:
+            # the evaluation before the final write left the solved surface
+            # 1e12 away: the one solve pass of the final write computes its
+            # shift as a difference of numbers of that size
+            self.probe('solve_check_skipped_after_astronomical_excursion')
+            return
         self.check_pickups_solves(key)
 
     def do_compensate(self, st):
@@ -492,6 +550,8 @@ class Sim:
             if st['driver'] == 'stub' else \
             simopt.RealDriver(st['seed'], self.stats['probes'])
         self.shape.append(('compensate', method, st['driver']))
+        size, watch = self.watcher()
+        drv.after_eval = watch
         try:
             with simopt.patched(drv), quiet(), warnings.catch_warnings():
                 warnings.simplefilter('ignore')
@@ -518,14 +578,16 @@ class Sim:
         for j, (v, x) in enumerate(zip(vals, rx)):
             tol = 1e-11 * max(1.0, abs(x))
             if self.vspecs[j]['type'] == 'thickness':
-                tol += ztol
+                tol += ztol + 1e-14 * size['max']
             if not (abs(v - x) <= tol):
                 raise Violation('state', f'C14/{key}/state/values',
                                 f'CompensatorOptimizer.run() returned x={rx} '
                                 f'(fun={rf!r}, success='
                                 f'{getattr(res, "success", None)}) but the '
                                 f'variables read {vals}')
-        if drv.consistent(res.x, rf) and self.displaced():
+        if drv.consistent(res.x, rf) and (
+                self.displaced() or
+                size['max'] > 1e9 * (1 + self.w.model.zscale)):
             self.probe('objective_not_compared_on_displaced_lens')
         elif drv.consistent(res.x, rf):
             ss = self.merit()
@@ -537,7 +599,11 @@ class Sim:
                 raise Violation('state', f'C14/{key}/state/objective',
                                 f'run() returned fun={rf!r} at x={rx}, but '
                                 f'sum_squared() on the lens is {ss!r}')
-        self.check_pickups_solves(key)
+        if size['max'] > 1e9 * (1 + self.w.model.zscale) and \
+                self.w.model.solves:
+            self.probe('solve_check_skipped_after_astronomical_excursion')
+        else:
+            self.check_pickups_solves(key)
 
     def check_pickups_solves(self, key):
         w = self.w
